@@ -12,7 +12,7 @@ WORKING COPY: /tmp/wt/{pid} is your own scratch git worktree of the library (Go 
 
 TASK: change the library's non-test source (.go files that are not _test.go; ignore verif_on.go / verif_off.go, which are inert observation hooks) so that the property above is BROKEN, while the code still compiles and the EXISTING test suite still passes. The change must be the kind of mistake a maintainer could plausibly make (a dropped condition, an off-by-one, a reordered pair of statements, a missing persist/reset, a wrong variable, two sites that each look fine alone), and it must need something specific to manifest - a particular interleaving, a crash or fault at a particular point, a multi-step sequence of operations, an unusual input or configuration - NOT something that ordinary use exposes at once (if ordinary use exposed it, the existing suite would catch it).
 
-Then write a DEMONSTRATION: one new Go test file in package raft (name it demo_{pid.lower()}_test.go) that FAILS (or hangs into a bounded timeout that you turn into a failure) with your change and PASSES on the unmodified code. It may use the package's existing test helpers (MakeCluster, inmem transports, InmemStore, MockFSM, etc.) or drive internals directly, since it lives in package raft. Verify both directions yourself (use `git stash` / `git stash pop` or `git diff > patch; git checkout .; ...`).
+Then write a DEMONSTRATION: one new Go test file in package raft (name it demo_{pid.lower()}_test.go) that FAILS (or hangs into a bounded timeout that you turn into a failure) with your change and PASSES on the unmodified code. It may use the package's existing test helpers (MakeCluster, inmem transports, InmemStore, MockFSM, etc.) or drive internals directly, since it lives in package raft. Verify both directions yourself (use `git diff > /tmp/wt-out/'ID'/my.patch; git checkout -- .; ...; git apply /tmp/wt-out/'ID'/my.patch`; do NOT use `git stash`: the stash is shared between all worktrees of this repository and other agents work in sibling worktrees).
 
 SUITE: run the full suite once at the end: `cd /tmp/wt/{pid} && go test -mod=mod -vet=off -count=1 -timeout 25m . 2>&1 | grep -E '^(--- FAIL|ok|FAIL|panic)'` (takes about 2.5 minutes; it is wall-clock based, so do not run other heavy things meanwhile). Known noise that does not count: TestFileSS_BadPerm always fails when run as root; TestRaft_FollowerRemovalNoElection, TestRaft_ProtocolVersion_Upgrade_1_2 and TestRaft_PreVoteMixedCluster are timing-flaky - rerun a failing one alone before concluding. While developing, run targeted tests only.
 
